@@ -97,6 +97,12 @@ func Corpus() []*Schema {
 	cs = append(cs, &Schema{ID: "reqforeign", Syntax: "proto2", Only: []string{"v1", "v2"}, Imports: []string{"google/protobuf/descriptor.proto"},
 		Messages: []M{{Name: "Holder", Fields: []F{{"label", 1, "string", "opt"}, {"part", 2, "wkt:google.protobuf.UninterpretedOption.NamePart", "opt"},
 			{"parts", 3, "wkt:google.protobuf.UninterpretedOption.NamePart", "rep"}}}}})
+	// a second .proto file with its own Go package whose NAME differs from the last element of its import
+	// path (…/dep/v1;depv1); only the importing file is handed to the generator
+	cs = append(cs, &Schema{ID: "imports", Syntax: "proto3",
+		Dep: &Schema{ID: "importsdep", Syntax: "proto3", Messages: []M{{Name: "D", Fields: []F{{"n", 1, "int32", "opt"}, {"s", 2, "string", "opt"}}}}, Enums: []E{{Name: "Shade", Values: []int32{0, 1, 5}}}},
+		Messages: []M{{Name: "User", Fields: []F{{"id", 1, "int32", "opt"}, {"d", 2, "dep:D", "opt"}, {"ds", 3, "dep:D", "rep"}, {"shade", 4, "depenum:Shade", "opt"}, {"shades", 5, "depenum:Shade", "packed"},
+			{"by", 6, "dep:D", "map:string"}, {"one", 7, "dep:D", "oneof:pick"}, {"other", 8, "depenum:Shade", "oneof:pick"}}}}})
 	// foreign messages (well-known types)
 	wkt := &Schema{ID: "wkt", Syntax: "proto3", Imports: []string{"google/protobuf/timestamp.proto", "google/protobuf/duration.proto", "google/protobuf/wrappers.proto"}}
 	wkt.Messages = []M{{Name: "Event", Fields: []F{{"name", 1, "string", "opt"}, {"at", 2, "wkt:google.protobuf.Timestamp", "opt"}, {"took", 3, "wkt:google.protobuf.Duration", "opt"},
